@@ -13,6 +13,7 @@ from static_frame.core.index import _IndexGOMixin
 from static_frame.core.index import Index
 from static_frame.core.index import IndexGO
 from static_frame.core.util import DateInitializer
+from static_frame.core.util import KeyIterableTypes
 from static_frame.core.util import DT64_DAY
 from static_frame.core.util import DT64_H
 from static_frame.core.util import DT64_M
@@ -171,6 +172,11 @@ class _IndexDatetimeGOMixin(_IndexGOMixin):
         self._labels_mutable.append(value)
         self._positions_mutable_count += 1 #pylint: disable=E0237
         self._recache = True #pylint: disable=E0237
+
+    def extend(self, values: KeyIterableTypes) -> None:
+        '''Append multiple values; values are converted first, so that the same date given in two forms is recognized as a duplicate before anything is appended.
+        '''
+        _IndexGOMixin.extend(self, tuple(to_datetime64(v, self._DTYPE) for v in values))
 
 #-------------------------------------------------------------------------------
 class IndexYear(IndexDatetime):
